@@ -61,7 +61,7 @@ macro_rules! size_fn {
         /// unit SERHDR: == the octets the matching header writer produces around a body of `len` octets
         #[verifier::external_body]
         pub fn $f(len: usize, is_array_element: &IsArrayElement) -> (r: Result<usize, usize>)
-            ensures (match $s(len as int, *is_array_element) { Some(n) => r == Ok::<usize, usize>(n as usize) && 0 <= n <= usize::MAX, None => r is Err }),
+            ensures (match $s(len as int, *is_array_element) { Some(n) => r == Ok::<usize, usize>(n as usize) && 0 <= n <= usize::MAX && n <= len + 9 && len <= 0xffff_fffb, None => r is Err }),       // (the last two facts are SERHDR's: refused above 0xffff_fffb, a header has at most nine octets)
         { unimplemented!() }
     )* } }
 }
@@ -388,6 +388,83 @@ impl SizeSerializer {
             &&& name@ != DESCRIBED_LIST@ && name@ != DESCRIBED_BASIC@ ==> e1 == e0 && r->Ok_0.field_role is Fields
         }),
 //@@ end
+//@@ fn file=serde_amqp/src/size_ser.rs impl=`impl<'a> ser::Serializer for &'a mut SizeSerializer` name=serialize_seq
+//@@ selfmut
+//@@ ret Result<SeqSerializer<'_>, Error>
+//@@ spec
+    ensures r is Ok, *r->Ok_0.se == *old(self), *final(self) == *final(r->Ok_0.se), r->Ok_0.cumulated_size == 0, r->Ok_0.idx == 0,       // [C20.size.compound-starts-empty] a sequence / tuple / variant starts with nothing sized yet, over THIS serializer (whose position and markers the header is sized under)
+//@@ end
+
+//@@ fn file=serde_amqp/src/size_ser.rs impl=`impl<'a> ser::Serializer for &'a mut SizeSerializer` name=serialize_tuple
+//@@ selfmut
+//@@ ret Result<TupleSerializer<'_>, Error>
+//@@ spec
+    ensures r is Ok, *r->Ok_0.se == *old(self), *final(self) == *final(r->Ok_0.se), r->Ok_0.cumulated_size == 0,       // [C20.size.compound-starts-empty]
+//@@ end
+
+//@@ fn file=serde_amqp/src/size_ser.rs impl=`impl<'a> ser::Serializer for &'a mut SizeSerializer` name=serialize_tuple_variant
+//@@ selfmut
+//@@ ret Result<VariantSerializer<'_>, Error>
+//@@ spec
+    ensures r is Ok, *r->Ok_0.se == *old(self), *final(self) == *final(r->Ok_0.se), r->Ok_0.cumulated_size == 0, r->Ok_0.variant_index == variant_index,       // [C20.size.compound-starts-empty] ... and under the index of THIS variant
+//@@ end
+
+//@@ fn file=serde_amqp/src/size_ser.rs impl=`impl<'a> ser::Serializer for &'a mut SizeSerializer` name=serialize_struct_variant
+//@@ selfmut
+//@@ ret Result<VariantSerializer<'_>, Error>
+//@@ spec
+    ensures r is Ok, *r->Ok_0.se == *old(self), *final(self) == *final(r->Ok_0.se), r->Ok_0.cumulated_size == 0, r->Ok_0.variant_index == variant_index,       // [C20.size.compound-starts-empty]
+//@@ end
+
+//@@ fn file=serde_amqp/src/size_ser.rs impl=`impl<'a> ser::Serializer for &'a mut SizeSerializer` name=serialize_some
+//@@ selfmut
+//@@ generics
+//@@ nowhere
+//@@ param value : &ValS
+//@@ ret Result<usize, Error>
+//@@ spec
+    ensures r is Ok ==> r->Ok_0 == sz(*value, mode_of(*old(self))),       // [C20.size.some-is-the-value] a present optional value has the size of the value itself, under the mode it is written under (ser.rs serialize_some: unit SERENTRY)
+//@@ end
+}
+//@@ type file=serde_amqp/src/size_ser.rs kind=struct name=VariantSerializer
+//@@ end
+impl<'a> TupleSerializer<'a> {
+//@@ fn file=serde_amqp/src/size_ser.rs impl=`impl<'a> TupleSerializer<'a>` name=new id=TupleSerializer::new
+//@@ spec
+    ensures *r.se == *old(se), *final(se) == *final(r.se), r.cumulated_size == 0,
+//@@ end
+}
+impl<'a> VariantSerializer<'a> {
+//@@ fn file=serde_amqp/src/size_ser.rs impl=`impl<'a> VariantSerializer<'a>` name=new id=VariantSerializer::new
+//@@ spec
+    ensures *r.se == *old(se), *final(se) == *final(r.se), r.cumulated_size == 0, r.variant_index == variant_index,
+//@@ end
+
+//@@ fn file=serde_amqp/src/size_ser.rs impl=`impl ser::SerializeTupleVariant for VariantSerializer<'_>` name=serialize_field id=VariantSerializer::serialize_field
+//@@ qmark
+//@@ generics
+//@@ nowhere
+//@@ param value : &ValS
+//@@ spec
+    requires old(self).cumulated_size < 0x7fff_ffff_0000_0000,
+    ensures *final(self).se == *old(self).se, *final(final(self).se) == *final(old(self).se), final(self).variant_index == old(self).variant_index,
+        r is Ok ==> final(self).cumulated_size == old(self).cumulated_size + sz(*value, plain_mode()),       // [C20.size.variant-fields-sized-as-written] each field of a tuple / struct variant is sized with its own constructor, once -- as ser.rs buffers it (unit SERENTRY, clause enum.variant-fields-in-order)
+//@@ end
+
+//@@ fn file=serde_amqp/src/size_ser.rs impl=`impl ser::SerializeTupleVariant for VariantSerializer<'_>` name=end id=VariantSerializer::end
+//@@ qmark
+//@@ subst `ser::Serialize::serialize(&self.variant_index, &mut serializer)?` => `u32_as_val(&self.variant_index).serialize(&mut serializer)?` rule=R28
+//@@ subst `.map_err(|_v0| Error::too_long())` => `.map_err(|_v0: usize| -> (o: Error) { Error::too_long() })` rule=R5
+//@@ subst `.map_err(|_v1| Error::too_long())` => `.map_err(|_v1: usize| -> (o: Error) { Error::too_long() })` rule=R5
+//@@ spec
+    ensures
+        r is Ok && old(self.se).is_array_element is False ==> ({
+            let l = list_sz(self.cumulated_size as int, IsArrayElement::False);
+            l is Some && map_sz(u32_sz(self.variant_index, IsArrayElement::False) + l->Some_0, IsArrayElement::False) == Some(r->Ok_0 as int)
+        }),       // [C20.size.tuple-variant-as-written] the size of a tuple / struct variant is the size of what ser.rs writes for it (unit SERENTRY, clause enum.tuple-variant-is-index-and-field-list): a map header around the index and a list header around the summed field sizes
+//@@ end
+}
+impl SizeSerializer {
 }
 
 } // verus!
